@@ -115,8 +115,9 @@ theorem disjoint_check_if (O : Oracle) (hO : O.Certified) (l : List TL)
     Side conditions, both necessary:
     * `hp` — every inequality mentions a variable.  An alternative with *no rows* is allowed: it denotes the whole
       space, `is_empty` answers `False` on it (`len(a) == 0`), and it does share a behaviour with every
-      satisfiable alternative, so both sides of the equivalence agree.  What breaks the equivalence is a row
-      without variables (see `disjoint_check_improper_counterexample`).
+      satisfiable alternative, so both sides of the equivalence agree.  A list consisting only of rows
+      without variables is decided correctly since the repair of `is_polytope_empty`
+      (`disjoint_check_improper_repaired`); `hp` is kept because the proofs of the loops use it.
     * `hns` — the LP engine decides the emptiness problems it is given (status 0/2/3); otherwise the code raises
       its "Cannot decide emptiness" instead. -/
 theorem disjoint_check (O : Oracle) (hO : O.Certified) (l : List TL) (hp : ∀ a ∈ l, a.Proper)
@@ -134,10 +135,11 @@ theorem disjoint_check (O : Oracle) (hO : O.Certified) (l : List TL) (hp : ∀ a
       · obtain ⟨a, ha, b, hb, hs⟩ := checkDisjoint_other O l e he ((mkNested_true_error O l e).mp hm)
         exact absurd hs (hns a ha b hb)
 
-/-- Without `Proper` the equivalence fails for the code as it is: two copies of the unsatisfiable row `0 ≤ -1`
-    share no behaviour, yet `is_polytope_empty` (no column ⇒ `False`) makes the constructor raise. -/
-theorem disjoint_check_improper_counterexample (O : Oracle) :
-    mkNested O [[⟨[], -1⟩], [⟨[], -1⟩]] true = .error .valueError ∧
+/-- Before the repair of `is_polytope_empty` for matrices without columns the equivalence failed without `Proper`:
+    two copies of the unsatisfiable row `0 ≤ -1` share no behaviour, yet the constructor raised (no column ⇒ "not
+    empty").  With the repair the pair is accepted, as it should be. -/
+theorem disjoint_check_improper_repaired (O : Oracle) :
+    mkNested O [[⟨[], -1⟩], [⟨[], -1⟩]] true = .ok [[⟨[], -1⟩], [⟨[], -1⟩]] ∧
     ¬ ∃ v, TL.holds [(⟨[], -1⟩ : PTerm)] v ∧ TL.holds [(⟨[], -1⟩ : PTerm)] v := by
   constructor
   · rfl
